@@ -6,13 +6,15 @@
    - the two loops of the compiler whose termination is not structural stop because of their step counters: bound
      propagation visits at most max_steps constraints, the tableau simplex makes at most `limit` pivots - the fuel of
      the Gallina models is provably never what stops them (so `out of fuel` is not a behaviour of the code);
+   - Exp::linearize recurses on strict sub-expressions: with fuel above the depth of the expression the model of the
+     linearizer never reports exhaustion, at any state and for every expression (logic arms included);
    - the precedence parser always returns within the fuel it is given by the C09 theorems on well-formed input
      (C09_pratt_complete) - and the harness measures the parsing time on nesting depth 64 and beyond;
    - integer arithmetic on constants is checked: every integer result lies inside i64 / u64, for all operands.
    The property itself - no stage panics, aborts or hangs on any input, every error renders against its source - is
    evaluated on the implementation under a process-level watchdog by checks/c18.py (partial). *)
 From Coq Require Import QArith ZArith Bool List String.
-From Rooc Require Import Base.XQ Model.Exp Model.Bounds Model.Tableau Model.Types Proof.Totality.
+From Rooc Require Import Base.XQ Model.Exp Model.Bounds Model.Linearize Model.Tableau Model.Types Proof.Totality Proof.LinFuel.
 Import ListNotations.
 Local Close Scope Q_scope.
 
@@ -30,6 +32,12 @@ Theorem C18_simplex_stops_at_the_iteration_limit_partial :
   forall t limit avoid extra,
     solve_loop (S limit + extra) t avoid limit O O (t_value t) [] = solve_avoiding t limit avoid.
 Proof. exact simplex_terminates_by_iteration_limit. Qed.
+
+Theorem C18_linearize_recursion_is_structural :
+  forall (n : nat) (e : exp) (r : req), (exp_depth e <= n)%nat -> forall s : lst, lin n e r s <> inl EFuel.
+Proof. exact lin_never_out_of_fuel. Qed.
+Theorem C18_linearize_exp_never_out_of_fuel : forall e r s, linearize_exp e r s <> inl EFuel.
+Proof. exact linearize_exp_never_out_of_fuel. Qed.
 
 Theorem C18_integer_arithmetic_is_checked :
   (forall v op w r, apply_bin v op w = inl r -> in_range r) /\
@@ -51,3 +59,4 @@ Definition C18_full_statement (input result : Type) (stages : list (input -> opt
 Print Assumptions C18_bound_propagation_stops_at_the_step_limit_partial.
 Print Assumptions C18_simplex_stops_at_the_iteration_limit_partial.
 Print Assumptions C18_integer_arithmetic_is_checked.
+Print Assumptions C18_linearize_recursion_is_structural.
